@@ -137,6 +137,11 @@ def main(chk):
     acls = C11.acl_cases(chk.tier)
     cases = [(l, (), "", False) for l in acls] + [(l, ("nc_wildcard",), "", True) for l in acls[::3]]
     cases += [(l, (), "=", k % 2 == 0) for k, l in enumerate(acls) if len(l) >= 3][::2]
+    # entries with different address groups on both sides (group members attached), next to entries inside one group only
+    GALPHA = ["permit ip object-group G1 object-group GD", "permit tcp host 10.0.0.1 host 10.0.0.2 eq 80", "permit tcp host 10.0.0.1 host 10.1.0.2 eq 80",
+              "permit ip object-group GD object-group G1", "permit tcp host 10.1.0.9 host 10.0.1.9", "deny ip any any", "permit ip object-group G3 any"]
+    gcases = [(l, (), "", False) for n in (2, 3) for l in itertools.product(GALPHA, repeat=n)]
+    cases += gcases
     res = pmap(check_delete, cases)
     viol = 0
     for fails, _ in res:
@@ -145,7 +150,8 @@ def main(chk):
             chk.finding(f["key"], f["what"], inputs=f["inputs"], cmd=f["cmd"], key=f["key"])
     chk.add_bounded("contract of Acl.delete_shadow (report, subsequence, only covered ACEs removed, remarks/order/numbers/grouping kept, idempotent)",
                     len(cases), sum(d for _, d in res),
-                    f"all ACLs of <= {3 if chk.tier == 'quick' else 4} items over the {len(C11.ALPHABET)}-kind alphabet (+ slice of length 4), flat / numbered / grouped by remark prefix",
+                    f"all ACLs of <= {3 if chk.tier == 'quick' else 4} items over the {len(C11.ALPHABET)}-kind alphabet (+ slice of length 4), flat / numbered / grouped by remark prefix; "
+                    f"{len(gcases)} ACLs of 2..3 items over {len(GALPHA)} entries with address groups on both sides",
                     viol, time.time() - t0, [list(acls[80])], exhaustive=True)
     chk.assumptions += ["coverage of a removed entry is decided with the independent reader + set algebra on the rendered lines",
                         "L4.firstmatch is stated for an arbitrary matching relation; its hypothesis is the bounded `uncovered` clause plus C03's proved soundness"]
